@@ -154,12 +154,17 @@ package interp
 //@ trusted func isChan(t) (r)
 //@   pure
 //@ lit Interpreter.cfg case:sendStmt () ()
-//@   props C03
+//@   props C03 C12
 //@   opt safety = off
 //@   opt opaque-calls = *
 //@   opt opaque-havoc = none
-//@   requires [assume] len(n.child) == 2 && n.child[0] != nil && n.child[1] != nil
-//@   ensures sent-constant-representable: err == nil && old(n.child[1].typ != nil && n.child[1].typ.untyped && n.child[1].typ.cat != nilT && isC(n.child[1].rval)) && old(isChan(n.child[0].typ) && n.child[0].typ.val != nil && !n.child[0].typ.val.untyped && basicTarget(n.child[0].typ.val)) ==> representableConst(old(cOf(n.child[1].rval)), old(n.child[0].typ.val).TypeOf())
+//@   opt inline = isChan
+//@   requires [assume] n != nil && len(n.child) == 2 && n.child[0] != nil && n.child[1] != nil && n.child[0].typ != nil && n.child[0] != n.child[1] && n.child[0] != n && n.child[1] != n
+//@   ensures [C12] destination-is-a-channel-one-can-send-on: err == nil ==> old(n.child[0].typ).TypeOf().Kind() == reflect.Chan && old(n.child[0].typ).TypeOf().ChanDir() != reflect.RecvDir
+//@   ensures [C12] sent-value-assignable-to-the-element-type: err == nil && old(n.child[0].typ.cat == chanT || n.child[0].typ.cat == chanSendT) && old(n.child[0].typ.val) != nil && old(n.child[0].typ.val.str) != "*unsafe2.dummy" ==> n.child[1].typ.assignableTo(old(n.child[0].typ.val))
+//@   loop 1
+//@   invariant a-channel-type-is-its-own-underlying-type: old(n.child[0].typ.cat) != linkedT ==> ct == old(n.child[0].typ)
+//@   ensures sent-constant-representable: err == nil && old(n.child[1].typ != nil && n.child[1].typ.untyped && n.child[1].typ.cat != nilT && isC(n.child[1].rval)) && old((n.child[0].typ.cat == chanT || n.child[0].typ.cat == chanSendT) && n.child[0].typ.val != nil && !n.child[0].typ.val.untyped && !isInterface(n.child[0].typ.val) && basicTarget(n.child[0].typ.val)) ==> representableConst(old(cOf(n.child[1].rval)), old(n.child[0].typ.val).TypeOf())
 
 // Constant builtins (run.go): len of a constant string is its length; len of an array type (through
 // pointers) is the array length; complex(a, b) / real(c) / imag(c) of constant operands.
